@@ -308,6 +308,8 @@ namespace ip {
 	{
 		abort_recv_handlers();
 		abort_send_handlers();
+		// a connect that is about to be refused
+		m_connect_timer.cancel();
 
 		if (m_connect_handler)
 		{
@@ -395,7 +397,11 @@ namespace ip {
 			m_channel.reset();
 			// TODO: ask the policy object what the round-trip to this endpoint is
 			m_connect_timer.expires_after(chrono::milliseconds(50));
-			m_connect_timer.async_wait(aux::make_malloc(std::bind(std::move(h), ec)));
+			// if the wait is cancelled (cancel(), close()) the handler is told
+			// operation_aborted rather than the refusal
+			m_connect_timer.async_wait(aux::make_malloc(
+				[h = std::move(h), ec](boost::system::error_code const& e) mutable
+				{ h(e ? e : ec); }));
 			return;
 		}
 
